@@ -11,6 +11,8 @@ an affine bound composed from the catalogue, and the first items equal a small P
 from __future__ import annotations
 
 import itertools
+import signal
+import time
 from fractions import Fraction
 
 from sim import core, repo, world
@@ -21,6 +23,10 @@ STEP_BUDGET = 2_000_000
 
 class PullBudgetExceeded(BaseException):
     pass
+
+
+class Blocked(BaseException):
+    """the run consumes no CPU: it waits for something that never comes (a lock, a read)"""
 
 
 # ------------------------------------------------------------------------------------------------
@@ -548,7 +554,7 @@ class C14(core.Check):
         rs = sub_rng(seed, self.id, run, "schedule")
         maxlen = rw.choice([1, 2, 3, 3])
         mode = rs.choice(["index", "firstn", "step", "resume", "two", "abandon", "index", "step", "elem_i", "slice_i",
-                          "forloop", "head_extract", "elem_i_swapped", "slice_strided", "slice_empty"])
+                          "forloop", "head_extract", "elem_i_swapped", "slice_strided", "slice_empty", "stored_copy"])
         n = rs.choice([1, 2, 3, 5, 8, 13, 20, 30, 40]) if rs.random() < 0.5 else rs.randint(1, 40)
         if rs.random() < 0.08:
             n = rs.choice([17, 33, 64, 65, 101, 128, 130])  # size thresholds beyond the statement's n <= 40 (same bound)
@@ -557,6 +563,14 @@ class C14(core.Check):
         case = dict(mode=mode, n=n, a=self.gen_pipeline(rw, maxlen))
         if mode == "slice_strided":
             case["stride"] = rs.choice([2, 3, 4, 7])
+        if mode == "stored_copy":
+            # a COPY of the result is stored, read through an element that walks it, and then asked for its prefix again
+            case["consume"] = rs.choice(["h", "¦ 3 Ẏ", "d 2 Ẏ", "2 l 2 Ẏ", "3 Ẏ", "1 i", "L" if False else "t" if False else "h"])
+            case["store"] = rs.choice(["£ ¥|¥", "→a ←a|←a", "⅛ ¾ h|¾ h"])
+        rv_ = sub_rng(seed, self.id, run, "via-input")
+        if rv_.random() < 0.1:
+            # the infinite list arrives as a program INPUT next to a second list input, instead of sitting on the stack
+            case["via_input"] = rv_.choice(["src-first", "src-second"])
         if mode == "resume":
             case["n1"] = rs.randint(1, n)
         if mode == "two":
@@ -604,6 +618,8 @@ class C14(core.Check):
             bound = max(bound_of(A, n), bound_of(B, nb))
         elif mode == "slice_empty":
             bound = bound_of(A, 0)
+        elif mode == "stored_copy":
+            bound = bound_of(A, max(n, 6))  # the intermediate reading asks for at most 4 items (+1 for a scan, +1 for windows)
         else:
             bound = bound_of(A, n)
         budget = 4 * bound + 64
@@ -624,7 +640,14 @@ class C14(core.Check):
         cov = {f"{mode}:{'+'.join(A)}"}
         faults = {}
         w = world.World(inputs=[])
-        w.stack.append(LL(source(), isinf=True))
+        via = case.get("via_input")
+        if via:
+            other = [7, 8, 9]
+            w.ctx.inputs[0][0] = [LL(source(), isinf=True), other] if via == "src-first" else [other, LL(source(), isinf=True)]
+            input_prefix = "? ? _ " if via == "src-first" else "? ? $ _ "
+        else:
+            w.stack.append(LL(source(), isinf=True))
+            input_prefix = ""
         tm = lambda v: world.to_model(v, LL, 2000)  # noqa
         got = None
 
@@ -643,14 +666,32 @@ class C14(core.Check):
         nd = need_of(A, max(n, 1)) + (need_of(B, max(nb, 1)) if mode == "two" and B else 0)
         step_budget = min(60_000_000, STEP_BUDGET + 40 * nd ** 2 + 5 * nd ** 3)
         world.CLOCK.start(budget=step_budget)
+        idle = {"cpu": time.process_time(), "n": 0}
+
+        def tick(signum, frame):
+            # wall-clock seconds in which this process used (next to) no CPU: it is not computing, it is WAITING
+            cpu = time.process_time()
+            idle["n"] = idle["n"] + 1 if cpu - idle["cpu"] < 0.02 else 0
+            idle["cpu"] = cpu
+            if idle["n"] >= 3:
+                raise Blocked()
+
+        old_handler = signal.signal(signal.SIGALRM, tick)
+        signal.setitimer(signal.ITIMER_REAL, 1.0, 1.0)
         try:
             with world.rec_limit(900):
                 if mode == "two" and B:
                     prog = f": {textA} $ {textB}"
                 else:
                     prog = textA
+                prog = input_prefix + prog
                 if mode == "firstn":
                     prog = prog + f" {n} Ẏ"
+                elif mode == "stored_copy":
+                    put, get = case.get("store", "£ ¥|¥").split("|")
+                    # exhaustible transformations (a cap on n) are only asked for their head in between
+                    consume = "h" if caps else case.get("consume", "h")
+                    prog = prog + f" : _ {put} {consume} _ {get} {n} Ẏ"
                 elif mode == "elem_i":
                     prog = prog + f" {n - 1} i"                      # the index element with a number
                 elif mode == "elem_i_swapped":
@@ -719,7 +760,7 @@ class C14(core.Check):
                         cov.add(f"n:{min(n // 10, 4)}:{mode}:{len(A)}")
                         return dict(verdict=OK, sig="", log=log, steps=world.CLOCK.steps + pulled, cov=sorted(cov), faults=faults,
                                     hist=core.digest(case), probes={"stages": len(A), "two": 0})
-                    if mode == "firstn":
+                    if mode in ("firstn", "stored_copy"):
                         if isinstance(res, LL):
                             res = res.listify()
                         if not isinstance(res, list):
@@ -757,6 +798,10 @@ class C14(core.Check):
         except world.StepBudgetExceeded:
             faults["step_budget"] = 1
             return fail("spin", f"step budget {step_budget} exhausted after {pulls[0]} pulls")
+        except Blocked:
+            faults["blocked"] = 1
+            return fail("hang", f"blocked after {pulls[0]} pulls: three seconds without using any CPU (waiting for a lock or a read "
+                                "that never comes)")
         except world.ValueTooBig:
             return dict(verdict=DISCARD, sig="too-big", log=log, steps=world.CLOCK.steps, hist=None)
         except Exception as e:
@@ -764,6 +809,8 @@ class C14(core.Check):
             log.append(dict(raised=repr(e)[:200]))
             return dict(verdict=DISCARD, sig="raised:" + type(e).__name__, log=log, steps=world.CLOCK.steps, hist=None)
         finally:
+            signal.setitimer(signal.ITIMER_REAL, 0)
+            signal.signal(signal.SIGALRM, old_handler)
             steps = world.CLOCK.stop()
         log.append(dict(pulls=pulled, bound=bound, first=got))
         if pulled > bound:
